@@ -404,7 +404,12 @@ func (sc *Enc) plan(t *core.Tape, env *Env) *EncPlan {
 		}
 	default:
 		sc.genMixed(cs, p, env)
-		if p.Deep == 0 && cs.Chance(1, 60) {
+		if !p.BytesBuf && p.Deep == 0 && cs.Chance(1, 6) {
+			// a misbehaving writer underneath: a failed flush must not change which
+			// calls are accepted nor any observer
+			sc.genWriteFaults(t.S("writer"), p)
+		}
+		if p.Deep == 0 && len(p.Write.Events)+len(p.Write.FaultAt) == 0 && p.Write.DiskFullAt == 0 && cs.Chance(1, 60) {
 			if len(p.Calls) > 6 {
 				p.Calls = p.Calls[:cs.Draw(7)]
 			}
@@ -880,9 +885,10 @@ func (sc *Enc) runMixed(p *EncPlan, env *Env, report reportFn) {
 		bb1 = &bytes.Buffer{}
 		w1 = bb1
 	} else {
-		sw1 = core.NewSimWriter(core.WritePlan{})
+		sw1 = core.NewSimWriter(p.Write)
 		w1 = sw1
 	}
+	faulty := sw1 != nil && (len(p.Write.Events)+len(p.Write.FaultAt) > 0 || p.Write.DiskFullAt > 0)
 	delivered := func() []byte {
 		if bb1 != nil {
 			return bb1.Bytes()
@@ -940,6 +946,12 @@ func (sc *Enc) runMixed(p *EncPlan, env *Env, report reportFn) {
 		err := encDo(e, c)
 		st.Steps++
 		ec := classify(err)
+		if ec.Kind == "injected" {
+			// the flush failed; the call itself was accepted
+			err = nil
+			ec = errClass{}
+			st.Nontrivial = true
+		}
 		if ec.Kind != "" && ec.Kind != "syntactic" {
 			if report("C06", "C06/rejection-error-type", callSite(c), "call %d rejected with %v", i, ec) {
 				return
@@ -1035,7 +1047,14 @@ func (sc *Enc) runMixed(p *EncPlan, env *Env, report reportFn) {
 		// bytes delivered whenever depth returns to zero
 		if m.Depth() == 0 && modelable {
 			d := delivered()
-			if !bytes.Equal(d, fm.Out) {
+			if faulty {
+				// while the writer misbehaves only "a prefix" can be demanded
+				if len(d) > len(fm.Out) || !bytes.Equal(d, fm.Out[:len(d)]) {
+					if report("C06", "C06/bytes-at-depth-zero", callSite(c)+"/faulty-writer", "after call %d: the %d delivered bytes are not a prefix of the reference serialization", i, len(d)) {
+						return
+					}
+				}
+			} else if !bytes.Equal(d, fm.Out) {
 				k := 0
 				for k < len(d) && k < len(fm.Out) && d[k] == fm.Out[k] {
 					k++
@@ -1045,6 +1064,47 @@ func (sc *Enc) runMixed(p *EncPlan, env *Env, report reportFn) {
 				}
 			}
 		}
+	}
+	if faulty {
+		// faults stop; close everything and push a sentinel through so that
+		// whatever a failed flush left in the buffer is delivered: nothing may
+		// be lost or duplicated
+		sw1.Off = true
+		for e.StackDepth() > 0 {
+			k, n := e.StackIndex(e.StackDepth())
+			if k == '{' && n%2 == 1 {
+				if e.WriteToken(jsontext.Null) != nil {
+					break
+				}
+				m.Apply('n', "")
+				fm.Write(refjson.FTok{Kind: 'n'}, true)
+			}
+			ck := byte(']')
+			if k == '{' {
+				ck = '}'
+			}
+			if encDo(e, EncCall{Op: 'T', Tok: ck}) != nil {
+				break
+			}
+			m.Apply(ck, "")
+			fm.Write(refjson.FTok{Kind: ck}, true)
+		}
+		e.WriteToken(jsontext.String("~END~"))
+		fm.Write(refjson.FTok{Kind: '"', Str: "~END~"}, true)
+		if modelable && !bytes.Equal(delivered(), fm.Out) {
+			d := delivered()
+			k := 0
+			for k < len(d) && k < len(fm.Out) && d[k] == fm.Out[k] {
+				k++
+			}
+			if report("C06", "C06/bytes-after-write-faults", "plain-writer", "after the faults stopped and everything was closed the writer holds %d bytes, the reference serialization of the accepted calls has %d; first difference at %d: got %s want %s", len(d), len(fm.Out), k, clip(d[max(0, k-20):min(len(d), k+40)], 60), clip(fm.Out[max(0, k-20):min(len(fm.Out), k+40)], 60)) {
+				return
+			}
+		}
+		st.Fault("write/short", sw1.NShort)
+		st.Fault("write/error-after-full-write", sw1.NErrAfter)
+		st.Fault("write/zero-progress-error", sw1.NReject)
+		st.Fault("write/disk-full", sw1.NDiskFull)
 	}
 	// twin: only the accepted calls, on a fresh encoder
 	if nrej > 0 && p.Deep == 0 {
@@ -1070,6 +1130,9 @@ func (sc *Enc) runMixed(p *EncPlan, env *Env, report reportFn) {
 		// compare bytes after closing everything on both
 		closeEnc(e)
 		closeEnc(te)
+		if faulty {
+			te.WriteToken(jsontext.String("~END~")) // e already got its sentinel above
+		}
 		if !bytes.Equal(delivered(), tb.Bytes()) {
 			if report("C06", "C06/twin-without-rejected-calls/bytes", writerKind(p), "final bytes differ: with rejected calls %s, without %s", clip(delivered(), 120), clip(tb.Bytes(), 120)) {
 				return
